@@ -148,9 +148,14 @@ class MPSBaseQtz(nn.Module):
             self.temperature = torch.tensor(temperature, dtype=torch.float32)
         if hard is not None:
             self.hard_softmax = hard
-        if disable_sampling is not None and disable_sampling:
+        # an option that is not specified (None) keeps its current value
+        if gumbel is not None:
+            self.gumbel_softmax = gumbel
+        if disable_sampling is not None:
+            self.disable_sampling = disable_sampling
+        if getattr(self, 'disable_sampling', False):
             self.sample_alpha = self.sample_alpha_none
-        elif gumbel is not None and gumbel:
+        elif getattr(self, 'gumbel_softmax', False):
             self.sample_alpha = self.sample_alpha_gs
         else:
             self.sample_alpha = self.sample_alpha_sm
